@@ -171,8 +171,8 @@ def gen_array():
         is_all = 'true' if op == 'all' else 'false'
         h = 'k_c14_%s_%s_%d_e%d_p%d' % (op, modes[mode], n, epat, ppat)
         props = 'C14,C04,C06,C01'
-        out.append('    //@ob name=C14.%s.%s.%d.e%d.p%d harness=%s props=%s tier=%s strength=bounded bound="%s; %d elements; element/predicate success pattern e=%s p=%s; values and predicate answers symbolic" fns=op::array::%s stubs=4 timeout=300 cutdrop=2 group=medium'
-                   % (op, modes[mode], n, epat, ppat, h, props, tier, note, n, bin(epat), bin(ppat), op))
+        out.append('    //@ob name=C14.%s.%s.%d.e%d.p%d harness=%s props=%s tier=%s strength=bounded bound="%s; %d elements; element/predicate success pattern e=%s p=%s; values and predicate answers symbolic" fns=op::array::%s stubs=4 timeout=1500 cutdrop=%d group=medium'
+                   % (op, modes[mode], n, epat, ppat, h, props, tier, note, n, bin(epat), bin(ppat), op, 1 if mode in (0, 3, 5) else 2))
         out.append('    //@ desc="%s: truth value, error cases, short-circuit evaluation log and scoping (literal-array elements evaluated against the outer data, computed elements passed as data UNPARSED, predicate sees the element) equal the spec"' % op)
         out.append('    quant_harness!(%s, %s, %d, %d, %d, %d);' % (h, is_all, mode, n, epat, ppat))
     for op in ('all', 'some'):
@@ -180,6 +180,8 @@ def gen_array():
         q(op, 1, 2, 3, 3, 'quick', 'collection computed (fresh array)')
         q(op, 2, 1, 1, 1, 'quick', 'collection computed (borrowed array)')
         q(op, 0, 0, 0, 0, 'quick', 'empty literal array')
+        q(op, 0, 1, 1, 1, 'quick', 'literal array of one expression')
+        q(op, 1, 1, 1, 1, 'quick', 'computed array of one (fresh)')
         q(op, 3, 0, 0, 0, 'quick', 'literal null')
         q(op, 4, 0, 0, 0, 'quick', 'computed null')
         q(op, 5, 0, 0, 0, 'quick', 'literal number (not a collection)')
